@@ -7,6 +7,7 @@ CONSTANTS
   FixEnqueue = FALSE
   FixBatch = FALSE
   LossySend = TRUE
+  HasKeepalive = TRUE
 INVARIANTS NotW1
 
 CHECK_DEADLOCK FALSE
